@@ -604,6 +604,22 @@ ASepItemRet ==
      ELSE IF f.g[7] THEN Return(NoneRet(f.n), f.cp2.cur, RwSec(f.cp2), f.cp2.insp, alt)   \* allow_trailing: keep the separator
      ELSE Return(NoneRet(f.n), f.cp.cur, RwSec(f.cp), f.cp.insp, alt)
 
+(* IntoIter (p.into_iter()): make_iter runs p ONCE, in Emit mode whatever the caller's mode (the items are needed), *)
+(* and `next` hands out the elements of its output without touching the input.  The iteration state is not a count  *)
+(* but what is left of the list: <<"new">> before make_iter, <<"it", remaining items>> afterwards.                  *)
+IterStart(it) == IF Op(it) = "intoiter" THEN <<"new">> ELSE 0
+IntoIterYield(f, items) ==
+  IF items = <<>> THEN Keep(NoneRet(<<"it", <<>>>>)) ELSE Keep(SomeRet(MV(f.mode, Head(items)), <<"it", Tail(items)>>))
+AIntoIterNext ==
+  /\ NextEntering({"intoiter"})
+  /\ LET f == Top IN
+     IF f.n = <<"new">> THEN Call([f EXCEPT !.pc = 1], 1, f.g[2], "E", cur, sec, insp, alt)
+     ELSE IntoIterYield(f, f.n[2])
+AIntoIterRet ==
+  /\ Resuming({"intoiter"}, 1) /\ Top.role = "next"
+  /\ LET f == Top IN
+     IF ~ret.ok THEN Keep(ErrRet) ELSE IntoIterYield(f, ret.val[2])
+
 (* Consumers.  collect (Collect::go), collect_exactly (CollectExactly::go),*)
 (* foldl, foldr, and an iterator used directly as a parser ("run":         *)
 (* Repeated::go with its unbounded fast path, SeparatedBy::go).            *)
@@ -617,12 +633,19 @@ AConsumerStart ==
      IN IF Op(f.g) = "run" /\ Op(it) = "rep" /\ it[3] = 0 /\ it[4] = Inf
         THEN \* Repeated::go fast path: loop { save; item in Check; on Err rewind and stop }
              Call([f EXCEPT !.pc = 9], 1, it[2], "C", cur, sec, insp, alt)
+        ELSE IF Op(f.g) = "run" /\ Op(it) = "intoiter"
+        THEN \* IntoIter as a plain parser: its parser in Check mode, the output thrown away
+             Call([f EXCEPT !.pc = 8], 1, it[2], "C", cur, sec, insp, alt)
         ELSE IF TryCfgFails(it, f.ctx)
         THEN \* TryIterConfigure::make_iter: add_alt_err(cursor, the closure's error), fail before any item
              LET sp == SpanOf(cur, cur) IN Return(ErrRet, cur, sec, insp, AddAltErr(Ety, alt, cur, UserErr(Ety, sp[1], sp[2], "tc")))
         ELSE IF Op(f.g) = "exact" /\ f.g[3] = 0
         THEN Keep(OkRet(MV(f.mode, VA(<<>>))))
-        ELSE CallIter([f EXCEPT !.pc = 1], 1, it, IterMode(f), 0, cur, sec, insp, alt)
+        ELSE CallIter([f EXCEPT !.pc = 1], 1, it, IterMode(f), IterStart(it), cur, sec, insp, alt)
+
+ARunIntoIterRet ==
+  /\ Resuming({"run"}, 8)
+  /\ IF ret.ok THEN Keep(OkRet(MV(Top.mode, VU))) ELSE Keep(ErrRet)
 
 ARunFastRet ==
   /\ Resuming({"run"}, 9)
@@ -666,7 +689,7 @@ AFoldlARet ==
   /\ Resuming({"foldl", "foldlw"}, 1)
   /\ LET f == Top IN
      IF ~ret.ok THEN Keep(ErrRet)
-     ELSE CallIter([f EXCEPT !.pc = 2, !.acc = <<ret.val>>], 2, f.g[3], f.mode, 0, cur, sec, insp, alt)
+     ELSE CallIter([f EXCEPT !.pc = 2, !.acc = <<ret.val>>], 2, f.g[3], f.mode, IterStart(f.g[3]), cur, sec, insp, alt)
 
 (* foldl_with: the folder also sees the span from the start of A to the end of the item just *)
 (* folded in (MapExtra::new(&before_all, inp)), the context and the state                     *)
@@ -1282,7 +1305,7 @@ CoreNext ==
   \/ AUnaryStart \/ AOrNotRet \/ ARewindRet \/ AAndIsARet \/ AAndIsBRet \/ ANotStart \/ ANotRet
   \/ AMapRet \/ AFilterRet \/ ATryMapWRet \/ ATryMapStart \/ ATryMapInnerFail \/ ATryMapRet \/ AValidateRet
   \/ ARepNext \/ ARepNextRet \/ ACfgRepNext \/ ACfgRepNextRet \/ AEnumNext \/ AEnumNextRet
-  \/ ASepNext \/ ASepLeadRet \/ ASepSepRet \/ ASepItemRet
+  \/ ASepNext \/ ASepLeadRet \/ ASepSepRet \/ ASepItemRet \/ AIntoIterNext \/ AIntoIterRet \/ ARunIntoIterRet
   \/ AConsumerStart \/ ARunFastRet \/ ACollectRet \/ AExactRet
   \/ AFoldlStart \/ AFoldlARet \/ AFoldlItRet \/ AFoldrItRet \/ AFoldrBRet
   \/ ARecoverStart \/ ARecoverARet \/ ARecoverViaRet \/ ASkipUntilUntilRet \/ ASkipUntilSkipRet
